@@ -1349,9 +1349,13 @@ func backpressureCase(k int) rt.Result {
 		return rt.Result{Verdict: "inconclusive", Why: err.Error()}
 	}
 	defer rl.Close()
+	// in variant 2 corebgp's own KEEPALIVE timer (a third of the hold time) stays out of the way, so that
+	// the FSM is not itself blocked in a write when Close arrives
+	variant := k % 3
+	hold := []uint16{3, 3, 30}[variant]
 	pl := newPlug()
 	w.srv.AddPeer(corebgp.PeerConfig{RemoteAddress: netip.MustParseAddr(peerIP), LocalAS: lAS, RemoteAS: rAS}, pl,
-		corebgp.WithPort(rl.Addr().(*net.TCPAddr).Port), corebgp.WithHoldTime(3), corebgp.WithIdleHoldTime(50*time.Millisecond),
+		corebgp.WithPort(rl.Addr().(*net.TCPAddr).Port), corebgp.WithHoldTime(hold), corebgp.WithIdleHoldTime(50*time.Millisecond),
 		corebgp.WithDialerControl(func(_, _ string, c syscall.RawConn) error {
 			return c.Control(func(fd uintptr) { syscall.SetsockoptInt(int(fd), syscall.SOL_SOCKET, syscall.SO_SNDBUF, 4096) })
 		}))
@@ -1381,6 +1385,10 @@ func backpressureCase(k int) rt.Result {
 			}
 		}
 	}()
+	// variant 0: the remote stops reading for less than the hold time; 1: for longer than the hold time
+	// (a write that is cut by a deadline would leave a fragment in the stream); 2: Server.Close arrives
+	// while the writers are blocked (the message in flight must still be completed before the Cease)
+	pauseFor := []time.Duration{2500 * time.Millisecond, 4500 * time.Millisecond, 4000 * time.Millisecond}[variant]
 	rc.pause(true)
 	type res struct {
 		g, i int
@@ -1399,7 +1407,15 @@ func backpressureCase(k int) rt.Result {
 			}
 		}(g)
 	}
-	time.Sleep(2500 * time.Millisecond) // writers block; at least two keepalive ticks queue behind them
+	closed := make(chan struct{})
+	if variant == 2 {
+		time.Sleep(1500 * time.Millisecond)
+		close(stopKA)
+		go func() { w.close(); close(closed) }()
+		time.Sleep(pauseFor - 1500*time.Millisecond)
+	} else {
+		time.Sleep(pauseFor) // writers block; at least two keepalive ticks queue behind them
+	}
 	rc.pause(false)
 	done := make(chan struct{})
 	go func() { wg.Wait(); close(done) }()
@@ -1408,9 +1424,17 @@ func backpressureCase(k int) rt.Result {
 	case <-time.After(20 * time.Second):
 		w.inconclusive("writers did not finish within 20 s after the remote resumed reading")
 	}
-	close(stopKA)
-	time.Sleep(300 * time.Millisecond)
-	w.close()
+	if variant == 2 {
+		select {
+		case <-closed:
+		case <-time.After(20 * time.Second):
+			w.inconclusive("Server.Close did not return within 20 s after the remote resumed reading")
+		}
+	} else {
+		close(stopKA)
+		time.Sleep(300 * time.Millisecond)
+		w.close()
+	}
 	rc.waitEOF(5 * time.Second)
 	close(results)
 	ok := map[[2]byte]bool{}
@@ -1420,8 +1444,20 @@ func backpressureCase(k int) rt.Result {
 		}
 	}
 	ms, _, perr := rc.snapshot()
+	rc.mu.Lock()
+	pending, endedClean := rc.p.Pending(), rc.eof && errors.Is(rc.rderr, io.EOF)
+	rc.mu.Unlock()
+	sawNotif := false
+	for _, m := range ms {
+		sawNotif = sawNotif || m.Type == wire.TypeNotification
+	}
 	if perr != nil {
-		w.violate("with the remote not reading for 2.5 s, the bytes corebgp wrote are not whole well-formed messages: %v", perr)
+		w.violate("with the remote not reading for %v (hold time %d s, variant %d), the bytes corebgp wrote are not whole well-formed messages: %v", pauseFor, int(hold), variant, perr)
+	} else if pending > 0 && endedClean && !sawNotif {
+		// corebgp closes a connection the remote keeps open only after it has written a NOTIFICATION, and every
+		// write before that one is completed; a stream that ends inside a message with no NOTIFICATION before it
+		// means a message in flight was cut
+		w.violate("with the remote not reading for %v (variant %d), corebgp closed the connection %d octets into a message and without a NOTIFICATION: the message in flight when the teardown began was cut", pauseFor, variant, pending)
 	} else {
 		seen := map[[2]byte]int{}
 		for _, m := range ms {
@@ -1437,13 +1473,13 @@ func backpressureCase(k int) rt.Result {
 				w.violate("WriteUpdate (writer %d seq %d) returned nil under back-pressure but appears %d times on the wire", k[0], k[1], seen[k])
 				break
 			}
-			if seen[k] == 0 {
+			if seen[k] == 0 && variant == 0 {
 				w.inconclusive("the connection ended with %v, data in flight may have been lost", rc.rderr)
 				break
 			}
 		}
 	}
-	return w.result("backpressure", len(ok) > 0, map[string]int{"real_backpressure": 1, "writes_ok": len(ok)})
+	return w.result(fmt.Sprintf("backpressure/%d/notif=%v/cleaneof=%v", variant, sawNotif, endedClean), len(ok) > 0, map[string]int{"real_backpressure": 1, fmt.Sprintf("real_backpressure_variant_%d", variant): 1, "writes_ok": len(ok)})
 }
 
 // ---------------------------------------------------------------- entry points
@@ -1457,8 +1493,8 @@ func TestRealReadd(t *testing.T) {
 
 func TestRealBackpressure(t *testing.T) {
 	c := rt.Get()
-	for i := 0; i < c.N(2, 20); i++ {
-		runCase(t, "real-backpressure", i, map[string]any{"sndbuf": 4096, "pause": "2.5s", "hold": 3}, func() rt.Result { return backpressureCase(i) })
+	for i := 0; i < c.N(3, 21); i++ {
+		runCase(t, "real-backpressure", i, map[string]any{"sndbuf": 4096, "variant": i % 3, "pause": []string{"2.5s", "4.5s", "4s with Server.Close after 1.5s"}[i%3], "hold": []int{3, 3, 30}[i%3]}, func() rt.Result { return backpressureCase(i) })
 	}
 }
 
